@@ -13,6 +13,15 @@ case "$what" in
     cp "$VERIF_ROOT/harness/go.sum.base" "$VERIF_BUILD/seq.sum"
     (cd "$VERIF_ROOT/harness" && $GO build -modfile="$mf" -o "$VERIF_BUILD/seq" ./cmd/seq)
     ;;
+  proc)
+    mf="$VERIF_BUILD/seq.mod"
+    sed "s#@REPO@#$VERIF_REPO#" "$VERIF_ROOT/harness/go.mod.tmpl" > "$mf"
+    cp "$VERIF_ROOT/harness/go.sum.base" "$VERIF_BUILD/seq.sum"
+    (cd "$VERIF_ROOT/harness" && $GO build -modfile="$mf" -o "$VERIF_BUILD/proc" ./cmd/proc)
+    (cd "$VERIF_ROOT/harness" && $GO build -modfile="$mf" -o "$VERIF_BUILD/wasmdrv-default" ./cmd/wasmdrv)
+    (cd "$VERIF_ROOT/harness" && $GO build -modfile="$mf" -tags tinywasm -o "$VERIF_BUILD/wasmdrv-tinywasm" ./cmd/wasmdrv)
+    (cd "$VERIF_REPO" && $GO build -o "$VERIF_BUILD/gtree-cli" ./cmd/gtree)
+    ;;
   mcgen)
     (cd "$VERIF_ROOT/mcgen" && $GO build -o "$VERIF_BUILD/mcgen" .)
     ;;
